@@ -54,7 +54,7 @@ package dag
 //@   modifies nothing
 
 //@ func read
-//@   props C07 C03 C01 C05 C02
+//@   props C07 C03 C01 C05 C02 C06
 //@   nopanic
 //@   pure wrapper
 //@   requires repo != nil && def.OperationUnmarshaler != nil
@@ -76,10 +76,17 @@ package dag
 // ... and a history is refused for a clock jump only on a non-merge hop of more than 1,000,000: merge commits are
 // exempt (merging after a long time must not make a valid entity unreadable)
 //@   assert at `fmt.Errorf("lamport clock jumping` [only-non-merge-jumps-refused] len(commit.Parents) <= 1 && opp.EditTime - parentPack.EditTime > 1000000
+// C03/C07: what enters the map of packs: a merge commit carries no operation (whatever its number of parents), the
+// root carries a creation time, and there is one root only - histories that break one of these are refused
+//@   assert at `oppMap[commit.Hash] = opp` [merge-commits-carry-no-operation] len(commit.Parents) > 1 ==> len(opp.Operations) == 0
+//@   assert at `oppMap[commit.Hash] = opp` [root-has-creation-time] len(commit.Parents) == 0 ==> opp.CreateTime > 0
+//@   check [single-root] err == nil ==> (forall k int :: { BFSOrder[k] } forall l int :: { BFSOrder[l] } 0 <= k && k < len(BFSOrder) && 0 <= l && l < len(BFSOrder) && len(BFSOrder[k].Parents) == 0 && len(BFSOrder[l].Parents) == 0 ==> k == l)
 //@   check [clock-edge] err == nil ==> (forall k int :: { BFSOrder[k] } 0 <= k && k < len(BFSOrder) ==> (forall j int :: { BFSOrder[k].Parents[j] } 0 <= j && j < len(BFSOrder[k].Parents) ==> (BFSOrder[k].Parents[j] in oppMap) && oppMap[BFSOrder[k].Parents[j]].EditTime < oppMap[BFSOrder[k].Hash].EditTime))
 //@   check [clock-jump] err == nil ==> (forall k int :: { BFSOrder[k] } 0 <= k && k < len(BFSOrder) && len(BFSOrder[k].Parents) <= 1 ==> (forall j int :: { BFSOrder[k].Parents[j] } 0 <= j && j < len(BFSOrder[k].Parents) ==> oppMap[BFSOrder[k].Hash].EditTime - oppMap[BFSOrder[k].Parents[j]].EditTime <= 1000000))
 //@   loop 3
 //@     invariant opsCount >= 0
+//@     invariant [root-count] (rootCount == 0 || rootCount == 1) && (rootCount == 0 ==> (forall k int :: { BFSOrder[k] } 0 <= k && k <= rangeindex ==> len(BFSOrder[k].Parents) > 0))
+//@     invariant [one-root-so-far] forall k int :: { BFSOrder[k] } forall l int :: { BFSOrder[l] } 0 <= k && k <= rangeindex && 0 <= l && l <= rangeindex && len(BFSOrder[k].Parents) == 0 && len(BFSOrder[l].Parents) == 0 ==> k == l
 //@     invariant forall h repository.Hash :: { oppMap[h] } h in oppMap ==> oppMap[h] != nil
 //@     invariant forall k int :: { BFSOrder[k] } 0 <= k && k <= rangeindex ==> BFSOrder[k].Hash in oppMap
 //@   loop 4
@@ -125,6 +132,11 @@ package dag
 // (C06) the merge commit is stamped with a time taken from - and therefore already persisted in - the repository
 // clock before the commit is written and the ref moved
 //@   assert at `commitHash, err := opp.Write(def, repo, localCommit, remoteCommit)` [merge-commit-stamped-from-the-clock] repository.clockSeen[def.Namespace + "-edit"] >= opp.EditTime && repository.refs == refs0
+// C07: whichever way the local ref comes to include the remote history - created, fast-forwarded or joined by a
+// merge commit - the remote entity passed validation first (not only when it is new here)
+//@   assert at `err := repo.CopyRef(remoteRef, localRef)` [only-validated-history-becomes-local] entity.lastValidated == remoteEntity && entity.lastValidatedOK
+//@   assert at `err = repo.UpdateRef(localRef, remoteCommit)` [only-validated-history-becomes-local] entity.lastValidated == remoteEntity && entity.lastValidatedOK
+//@   assert at `commitHash, err := opp.Write(def, repo, localCommit, remoteCommit)` [only-validated-history-becomes-local] entity.lastValidated == remoteEntity && entity.lastValidatedOK
 //@   check [entity-is-merged-result] result.Status == entity.MergeStatusNew || result.Status == entity.MergeStatusUpdated ==> result.Entity != nil && entity.entityHead(result.Entity) == repository.refs[localRef]
 //@   check [error-keeps-ancestors] result.Status == entity.MergeStatusError && (localRef in refs0) ==> (localRef in repository.refs) && repository.anc(l, repository.refs[localRef])
 //@   loop 1
@@ -300,7 +312,7 @@ package dag
 // entity's head commit - the largest of the entity by the clock-edge rule - and the creation clock to the
 // creation time stored in the root commit it walks back to.
 //@ func readClockNoCheck
-//@   props C05
+//@   props C05 C06
 //@   requires repo != nil
 //@   modifies repository.clockSeen, repository.mutSeq
 //@   opt trusted_frame
@@ -328,3 +340,32 @@ package dag
 //@     invariant [l2-added] forall h repository.Hash :: { (h in added) } (h in added) ==> (exists e int :: { tree[e] } 0 <= e && e < len(tree) && tree[e].Hash == h)
 //@     invariant [l2-done]  forall k int :: { opp.Operations[k] } 0 <= k && k <= rangeindex1 && implements(opp.Operations[k], OperationWithFiles) ==> (forall j int :: { opp.Operations[k].(OperationWithFiles).GetFiles()[j] } 0 <= j && j < len(opp.Operations[k].(OperationWithFiles).GetFiles()) ==> (exists e int :: { tree[e] } 0 <= e && e < len(tree) && tree[e].Hash == opp.Operations[k].(OperationWithFiles).GetFiles()[j]))
 //@     invariant [l2-current] forall j int :: { rangeslice[j] } 0 <= j && j <= rangeindex ==> (exists e int :: { tree[e] } 0 <= e && e < len(tree) && tree[e].Hash == rangeslice[j])
+
+// ClockLoader (C05, C06): the loader of a set of entity definitions declares both clocks of every definition -
+// creation and edit - so that a repository in which any one of them is missing (or torn) has them rebuilt
+// from the entities when it is opened.
+//@ func ClockLoader
+//@   props C05 C06
+//@   nopanic
+//@   ensures [both-clocks-of-every-definition] len(result.Clocks) == 2 * len(defs) && (forall j int :: { result.Clocks[j] } 0 <= j && j < len(result.Clocks) ==> result.Clocks[j] == defs[j / 2].Namespace + (j % 2 == 0 ? "-create" : "-edit"))
+//@   loop 1
+//@     invariant len(clocks) == 2 * (rangeindex + 1) && (clocks == nil || fresh(clocks))
+//@     invariant forall j int :: { clocks[j] } 0 <= j && j < len(clocks) ==> clocks[j] == defs[j / 2].Namespace + (j % 2 == 0 ? "-create" : "-edit")
+
+// The validation gate of operations (C07, C16, C10): what OpBase.Validate accepts has an author, the expected
+// type and a nonce of 20..64 bytes; every file hash of a file-carrying operation is a valid hash.
+// baseChecked/baseCheckedType/baseCheckedOK: the last operation handed to OpBase.Validate, the type it was checked
+// against and the verdict (ghost record, so that the operations' own Validate can be held to go through it).
+//@ ghost var baseChecked Operation
+//@ ghost var baseCheckedType OperationType
+//@ ghost var baseCheckedOK bool
+//@ func (*OpBase).Validate
+//@   props C07 C16
+//@   requires base != nil && op != nil
+//@   modifies baseChecked, baseCheckedType, baseCheckedOK
+//@   opt trusted_frame
+//@   opt interior_ok
+//@   defines [recorded] baseChecked == op && baseCheckedType == opType && baseCheckedOK == (result == nil)
+//@   ensures [accepted-base-is-well-formed] result == nil ==> base.OperationType == opType && base.OperationType != 0 && base.author != nil && len(base.Nonce) >= 20 && len(base.Nonce) <= 64
+//@ func Operation.Time
+//@   modifies nothing
